@@ -42,4 +42,73 @@ def c08(ck, prop, tier, seed, keep, t0, bt):
     return rc
 
 
-SPECIAL = {"C08": c08}
+def c09(ck, prop, tier, seed, keep, t0, bt):
+    """Serial flavour (reference) and parallel flavour (rayon pools of 1..16 threads x 5 delay patterns injected
+    through the verif-hooks observation points) run the same workload; the judge compares case by case.
+    Thorough adds ThreadSanitizer and Miri runs of the parallel paths (see sanitizers.py)."""
+    from concurrent.futures import ThreadPoolExecutor
+    tpar = os.path.join(ck.HARNESS, "target-par")
+    bt2 = ck.build(features=("parallel", "hooks"), target_dir=tpar)
+    drive_s = ck.bin_path("wv-drive")
+    drive_p = ck.bin_path("wv-drive", target_dir=tpar)
+    judge = ck.bin_path("wv-judge")
+    wd = os.path.join(ck.WORK, "%s-%s" % (prop, tier))
+    shutil.rmtree(wd, ignore_errors=True)
+    os.makedirs(wd)
+    n = ck.NCPU
+    watchdog = 1800 if tier == "quick" else 6 * 3600
+    logs_a = [os.path.join(wd, "serial%02d.log" % i) for i in range(n)]
+    logs_b = [os.path.join(wd, "par%02d.log" % i) for i in range(n)]
+    with ThreadPoolExecutor(max_workers=n) as ex:
+        ca = list(ex.map(lambda i: ck.run_shard(drive_s, prop, tier, seed, i, n, logs_a[i], watchdog), range(n)))
+    # the parallel flavour uses up to 16 threads per case itself: run 4 shards at a time
+    with ThreadPoolExecutor(max_workers=4) as ex:
+        cb = list(ex.map(lambda i: ck.run_shard(drive_p, prop, tier, seed, i, n, logs_b[i], watchdog), range(n)))
+    reports = [os.path.join(wd, "judge%02d.json" % i) for i in range(n)]
+
+    def j(i):
+        cmd = [judge, "--prop", prop, "--log", logs_a[i], "--log2", logs_b[i], "--out", reports[i], "--replay-dir", ck.REPLAYS]
+        r = subprocess.run(cmd, env=ck.ENV, stdout=subprocess.PIPE, stderr=subprocess.STDOUT)
+        return None if r.returncode == 0 else "judge shard %d failed: %s" % (i, r.stdout.decode(errors="replace")[-400:])
+
+    with ThreadPoolExecutor(max_workers=n) as ex:
+        jerrs = [e for e in ex.map(j, range(n)) if e]
+    merged = ck.merge_reports(reports)
+    merged["harness_errors"] += jerrs
+    merged["counters"]["driver_crashes"] = sum(ca) + sum(cb)
+    merged["counters"]["build_s"] = int(bt + bt2)
+    problems = []
+    orders = merged["counters"].get("distinct-completion-orders(sum over inputs)", 0)
+    cases = max(1, merged["cases"])
+    if orders < 3 * cases:
+        problems.append("schedule perturbation ineffective: only %d distinct completion orders over %d inputs" % (orders, cases))
+    extra = {}
+    if tier == "thorough":
+        import sanitizers
+        extra, sp, sv = sanitizers.run_c09(ck, seed, wd)
+        problems += sp
+        merged["violations"] += sv
+    rc = ck.finish(prop, tier, seed, merged, t0, extra_cov=extra, harness_problems=problems)
+    if not keep:
+        shutil.rmtree(wd, ignore_errors=True)
+    return rc
+
+
+def c17(ck, prop, tier, seed, keep, t0, bt):
+    """Standard run; thorough additionally replays a reduced set of histories under Miri."""
+    merged, wd = ck.standard_run(prop, tier, seed, keep)
+    merged["counters"]["build_s"] = int(bt)
+    extra = {}
+    problems = []
+    if tier == "thorough":
+        import sanitizers
+        os.makedirs(wd, exist_ok=True)
+        extra, problems, sv = sanitizers.run_c17(ck, seed, wd)
+        merged["violations"] += sv
+    rc = ck.finish(prop, tier, seed, merged, t0, extra_cov=extra, harness_problems=problems)
+    if not keep:
+        shutil.rmtree(wd, ignore_errors=True)
+    return rc
+
+
+SPECIAL = {"C08": c08, "C09": c09, "C17": c17}
